@@ -108,7 +108,7 @@ pub fn accepted_under_flip(set: &dyn DynSet, t: &Tuple, b: &Built, art: Artefact
 }
 
 // ---- reach statistics only (never the oracle): a restatement of Algorithm 21's acceptance rules
-fn hint_section_decodes(info: &SetInfo, sig: &[u8]) -> bool {
+pub fn hint_section_decodes(info: &SetInfo, sig: &[u8]) -> bool {
     let y = &sig[info.hint_start()..];
     let (omega, k) = (info.omega, info.k);
     let mut index = 0usize;
